@@ -126,3 +126,122 @@ def unit_mix(F, rep, rule, crates):
                c.span if c is not None else g.span, fn=g.path, key="%s|%s|%s" % (rule, mir.short(top), mir.short(c.callee()) if c is not None else "range"))
     if not hits:
         rep.ob(rule, "no character count is used as a byte offset (%d char-counting sites in %s)" % (n, "/".join(crates)), "ok", "", None, key=rule + "|summary")
+
+
+def marker_radix(F, rep, rule="C14.marker-radix"):
+    """A `0x` marker that a parse method removes from its input is a statement about the base of what follows.  So wherever an arm of
+    BuiltInFunction::run strips the constant "0x" (strip_prefix, or starts_with + a sub-slice) and the stripped text reaches a number parse,
+    that parse is `from_str_radix(_, 16)` - with the constant 16, or with a radix that the path has tested to be 16.  A decimal `parse`
+    of the stripped text reads "0x10" as 10; a parse in the caller's radix reads "0x11" in base 2 as 3."""
+    import rules
+    from props import _casts
+    run_, arms = _casts.arms_of_run(F)
+    n = 0
+    # edges on which some integer is known to equal 16
+    e16 = set()
+    for bb, blk in enumerate(run_.blocks):
+        t = blk["t"]
+        if t["k"] != "switch":
+            continue
+        dl = mir.op_local(t["discr"])
+        if t.get("dty") == "bool" and dl is not None:
+            for d in rules.defs_of(run_, dl):
+                if d[0] == "assign" and d[4].get("bin") == "Eq" and any((mir.op_const(d[4][s_]) or {}).get("int") == "16" for s_ in ("l", "r")):
+                    e16.add((bb, t["otherwise"]))
+        elif any(str(v) == "16" for v, _ in t["targets"]) and t.get("dty") in ("u32", "i32", "usize", "u8", "i64", "u64"):
+            e16.add((bb, dict((str(v), b) for v, b in t["targets"])["16"]))
+    for variant, blocks in sorted(arms.items()):
+        strips = []
+        for c in run_.calls():
+            if c.bb in blocks and c.args and len(c.args) > 1 and (mir.op_const(c.args[1]) or {}).get("str") == "0x" \
+                    and mir.short(c.callee()) in ("str::strip_prefix", "str::starts_with", "str::trim_start_matches"):
+                strips.append(c)
+        if not strips:
+            continue
+        parses = [c for c in run_.calls() if c.bb in blocks and (mir.short(c.callee()) == "str::parse" or mir.short(c.callee()).endswith("::from_str_radix"))]
+        # locals that (may) hold stripped text
+        stripped = set()
+        roots_ = set()
+        for c in strips:
+            if mir.short(c.callee()) == "str::starts_with":
+                # the sub-slice taken on the true side of the test
+                der = run_.derived([c.dst["l"]])
+                for bb, t_t, f_t, pol in rules.bool_switches(run_, der):
+                    if pol is None:
+                        continue
+                    side = run_.reachable(t_t if pol else f_t, removed_edges={(bb, f_t if pol else t_t)})
+                    other = run_.reachable(f_t if pol else t_t)
+                    for c2 in run_.calls():
+                        if c2.bb in side and c2.bb not in other and mir.short(c2.callee()) in ("str::get", "core::ops::Index::index", "<str as Index<I>>::index", "str::split_at"):
+                            stripped |= set(run_.derived([c2.dst["l"]], through_call=_text_through))
+                            roots_.add(c2.dst["l"])
+            else:
+                stripped |= set(run_.derived([c.dst["l"]], through_call=_text_through))
+                roots_.add(c.dst["l"])
+        for pc in parses:
+            a0 = mir.op_local(pc.args[0]) if pc.args else None
+            if a0 is None:
+                continue
+            back = set()
+            work = [a0]
+            while work:
+                l = work.pop()
+                if l in back:
+                    continue
+                back.add(l)
+                for d in rules.defs_of(run_, l):
+                    if d[0] == "assign":
+                        rv = d[4]
+                        pl = mir.op_place(rv["use"]) if "use" in rv else rv.get("ref")
+                        if pl:
+                            work.append(pl["l"])
+                    elif d[4].matches(tuple(rules.TRANSPARENT)) and d[4].args:
+                        work.append(mir.op_local(d[4].args[0]))
+            if not (back & stripped):
+                continue
+            n += 1
+            key = "%s|%s|%s" % (rule, variant, mir.short(pc.callee()))
+            inst = "%s: text whose `0x` marker was removed is parsed in base 16 (%s)" % (variant, mir.short(pc.callee()))
+            if mir.short(pc.callee()) == "str::parse":
+                rep.ob(rule, inst, "violated", "the stripped text reaches a decimal parse: \"0x10\".parse_int() is 10", pc.span, fn=run_.path, key=key)
+                continue
+            rk = mir.op_const(pc.args[1]) if len(pc.args) > 1 else None
+            if rk is not None:
+                rep.ob(rule, inst, "ok" if rk.get("int") == "16" else "violated", "constant radix %s" % rk.get("int"), pc.span, fn=run_.path, key=key)
+                continue
+            # a variable radix: every block that moves stripped text into the parsed variable sits behind an `== 16` edge
+            # `pure`: locals every definition of which comes from the stripped text (the merged variable that also holds the unstripped
+            # input on other paths is not)
+            pure = set(roots_)
+            changed = True
+            while changed:
+                changed = False
+                for l in stripped - pure:
+                    ds = rules.defs_of(run_, l)
+                    if ds and all(d[0] == "assign" and ((mir.op_place(d[4]["use"]) if "use" in d[4] else d[4].get("ref")) or {}).get("l") in pure for d in ds):
+                        pure.add(l)
+                        changed = True
+            movers = []
+            for bi, si, dst, rv, s_ in run_.assigns():
+                pl = mir.op_place(rv["use"]) if "use" in rv else rv.get("ref")
+                if bi in blocks and pl and pl["l"] in pure and dst["l"] in back and dst["l"] not in roots_:
+                    movers.append(bi)
+            for c2 in run_.calls():
+                if c2.bb in blocks and c2.args and mir.op_local(c2.args[0]) in pure and c2.dst["l"] in back and _text_through(c2, [0]):
+                    movers.append(c2.bb)
+            bad = [b for b in set(movers) if not rules.edge_dominated(run_, b, e16)]
+            rep.ob(rule, inst, "violated" if bad else ("ok" if movers else "undecided"),
+                   ("the marker is removed whatever the radix is: \"0x11\".parse_int_radix(2) is 3 (blocks %s are not behind a `radix == 16` edge)" % sorted(bad)) if bad
+                   else ("%d move(s) of stripped text, all behind `radix == 16`" % len(set(movers)) if movers else "no move of the stripped text found"),
+                   pc.span, fn=run_.path, key=key)
+    rep.floor(rule + " parses of marker-stripped text", n, 4)
+
+
+def _text_through(call, derived_args):
+    """calls that hand the (possibly absent) text on unchanged"""
+    return 0 in derived_args and mir.short(call.callee()).replace("::<T>", "") in ("Option::unwrap_or_default", "Option::unwrap_or", "Option::unwrap", "Option::expect",
+                                                                                    "Option::unwrap_or_else", "<String as Deref>::deref", "str::trim", "<T as Into<U>>::into")
+
+
+def stripped_roots(fn, strips):
+    return {c.dst["l"] for c in strips}
